@@ -1,7 +1,9 @@
 #!/usr/bin/env python3
 """C19 — the Python module adds only JSON (de)serialisation around the library.
 
-  K1  wrapper shape (Python `ast`, all paths of the two public functions):
+  K1  wrapper, read as paths (Python `ast`, symbolic evaluation: if/else, conditional expressions, early returns,
+      module-level and nested helper functions evaluated at their call sites; per path: the returned term over the
+      parameters, the calls made, the `is None` facts established):
       every optional callable parameter (default None) is rebound to its
       documented default (`json.dumps` / `json.loads`) on every path before it is
       called; the native `_apply` is called exactly once, with
@@ -12,7 +14,9 @@
       None; no try/except, no other call, no global/nonlocal; `_apply` is the
       `apply` of the extension module `.jsonlogic`; the ImportError shim re-raises
       off Windows; `__all__` exports exactly the two functions;
-  K2  native boundary (MIR, feature `python`): the binding's inner function
+  K2  native boundary (MIR, feature `python`; the inner function and the PyResult wrapper are read as decision
+      tables — rules/optnorm.py — so `?`, match, early returns and combinators are one form; a private helper is
+      'not read' as written and decided on the view with it inlined): the binding's inner function
       parses each argument with serde_json::from_str::<Value>, calls the
       library's apply(&rule, &data) in that order, returns Value::to_string of the
       Ok payload; each of the three errors is converted (map_err) and
